@@ -128,12 +128,19 @@ def applTextOld (stale : List Byte) (text : List Byte) : List Byte :=
 
 /-! ## 2. AIFF markers -/
 
-/-- the 'p' case of psf_binheader_writef: a length byte (odd; at most 254) and that many bytes of the name buffer, which is
+/-- the 'p' case of psf_binheader_writef: a length byte (odd; at most `cap`) and that many bytes of the name buffer, which is
     zero-filled behind the text -/
-def pascal (name : List Byte) : List Byte :=
+def pascalW (cap : Nat) (name : List Byte) : List Byte :=
   let size := if name.length % 2 = 1 then name.length else name.length + 1
-  let size := min size 254
+  let size := min size cap
   size :: (name ++ zeros 256).take size
+
+/-- the repaired rule: a pascal string holds up to 255 characters (count byte + text is always even) -/
+def pascal (name : List Byte) : List Byte := pascalW 255 name
+
+/-- before the repair of KF-C12-AIFF-CUE-NAME-254: the cap was 254, so a name of 254 / 255 characters was written as count 254 + 254
+    bytes — an odd total, one byte less than `markStringLength` counts -/
+def pascalOld (name : List Byte) : List Byte := pascalW 254 name
 
 structure Mark where
   id : Nat
